@@ -310,6 +310,7 @@ def run_property(prop, spec, tier, seed, replay=None):
     failures.sort(key=_size)
     known, fixed = load_known(prop)
     violations, known_hits, unconfirmed = [], [], []
+    not_replayed = 0
     seen = set()
     for path, how, j in failures:
         if path is None:
@@ -317,17 +318,24 @@ def run_property(prop, spec, tier, seed, replay=None):
         if path in seen:
             continue
         seen.add(path)
+        if len(violations) >= 3 or len(unconfirmed) >= 12:
+            not_replayed += 1; continue     # enough reproductions to report / enough that did not reproduce
         confirmed = 0
         needs_rep = False
-        for _ in range(3):
+        for attempt in range(3):
+            env = san_env(j.replay_flavour)
+            if attempt:   # only the first replay repeats a passing case (history-dependent failures, <= 15 s)
+                env = dict(env, VERIF_REPLAY_REPEAT='1')
             try:
                 r = subprocess.run([vbuild.binpath(j.replay_flavour, j.replay_bin), '--prop', prop, '--replay', path],
-                                   stdout=subprocess.PIPE, stderr=subprocess.STDOUT, env=san_env(j.replay_flavour), cwd=VERIF, timeout=150)
+                                   stdout=subprocess.PIPE, stderr=subprocess.STDOUT, env=env, cwd=VERIF, timeout=150)
                 if r.returncode != 0:
                     confirmed += 1
                     needs_rep = needs_rep or b'(repetition ' in r.stdout
             except subprocess.TimeoutExpired:
                 confirmed += 1   # a replay that does not return reproduces a hang
+            if confirmed:
+                break
         if confirmed == 0:
             unconfirmed.append(path); continue
         key = case_key(path)
@@ -355,7 +363,7 @@ def run_property(prop, spec, tier, seed, replay=None):
         'notes': agg['notes'], 'counters': agg['counters'], 'inconclusive_remainder': agg['inconclusive'],
         'exhaustive': bool(agg['campaigns']) and all(c['exhaustive'] for c in agg['campaigns'].values()) and not agg['inconclusive'],
         'exhaustive_campaigns': sorted(k for k, c in agg['campaigns'].items() if c['exhaustive']),
-        'build_s': round(bt, 2), 'unconfirmed_failures': unconfirmed,
+        'build_s': round(bt, 2), 'unconfirmed_failures': unconfirmed, 'failures_not_replayed': not_replayed,
         'known_findings_matched': [k[1] for k in known_hits],
         'violating_cases': [v[0] or v[1] for v in violations],
     }
